@@ -76,11 +76,15 @@ class FortranCodegenConservative(FortranCodegen):
         if o.source and o.source.status == SourceStatus.VALID:
             return o.source.string
 
-        if o.source and o.source.status == SourceStatus.INVALID_CHILDREN:
-            if o.inline:
-                # TODO: Deal with inline conditionals properly
-                return super().visit_Conditional(o, *args, **kwargs)
+        if o.inline:
+            # The body statement of an inline conditional shares its source line
+            # with the conditional itself and must be re-generated along with it
+            body = tuple(b.clone(source=None) for b in o.body)
+            return super().visit_Conditional(o.clone(body=body), *args, **kwargs)
 
+        if o.source and o.source.status == SourceStatus.INVALID_CHILDREN:
+            # The header line (``IF`` or ``ELSE IF``) is taken from source
+            kwargs.pop('is_elseif', None)
             header = o.source.string.splitlines()[0]
 
             self.depth += self.style.conditional_indent
@@ -106,6 +110,18 @@ class FortranCodegenConservative(FortranCodegen):
             return self.join_lines(header, body, *else_body)
 
         return super().visit_Conditional(o, *args, **kwargs)
+
+    def visit_MaskedStatement(self, o, *args, **kwargs):
+        if o.source and o.source.status == SourceStatus.VALID:
+            return o.source.string
+
+        if o.inline:
+            # The assignment of an inline WHERE shares its source line with the
+            # WHERE statement itself and must be re-generated along with it
+            bodies = tuple(tuple(b.clone(source=None) for b in body) for body in o.bodies)
+            return super().visit_MaskedStatement(o.clone(bodies=bodies), *args, **kwargs)
+
+        return super().visit_MaskedStatement(o, *args, **kwargs)
 
     def visit_VariableDeclaration(self, o, *args, **kwargs):
         if o.source and o.source.status == SourceStatus.VALID:
